@@ -2349,3 +2349,95 @@ def unfold_tree_folds(tree, resolve_def):
             ast.fix_missing_locations(fn)
             done.append('%s:%s' % (fn.name, rec_name))
     return done
+
+
+# ---------------------------------------------------------------------------------------------------------------------
+# a recursive walk shared by several writers, parameterised by functions
+# ---------------------------------------------------------------------------------------------------------------------
+def specialise_walkers(tree, resolve_def):
+    """A module-level function that walks a tree recursively and takes what differs between its users as parameters --
+    `_bracketed(node, leaf, label, separator)`, calling itself with the same leaf / label / separator for every child --
+    is read, at each call site `W(E, a, b, c)` inside a function, as a closure of that function:
+        def rec(node): <body of W with a, b, c for the invariant parameters and rec(x) for W(x, a, b, c)>
+    and the call becomes rec(E).  Only when every recursive call hands the parameters 2.. on unchanged, the walker does
+    not rebind them, and the arguments at the call site are names, constants or lambdas."""
+    done = []
+    for fn in [f for f in tree.body if isinstance(f, ast.FunctionDef)]:
+        for body, i, s in list(_own_statements(fn)):
+            if not isinstance(s, (ast.Return, ast.Assign, ast.Expr)) or getattr(s, 'value', None) is None:
+                continue
+            cands = []
+            for c in ast.walk(s.value):
+                if not (isinstance(c, ast.Call) and isinstance(c.func, ast.Name) and len(c.args) >= 2 and not c.keywords and not any(isinstance(a, ast.Starred) for a in c.args)):
+                    continue
+                d = resolve_def(c.func.id)
+                if d is None or d is fn or not isinstance(d, ast.FunctionDef) or d.decorator_list or d.args.vararg or d.args.kwarg or d.args.kwonlyargs or d.args.defaults:
+                    continue
+                ps = [a.arg for a in d.args.args]
+                if len(ps) != len(c.args):
+                    continue
+                recs = [r for r in ast.walk(d) if isinstance(r, ast.Call) and isinstance(r.func, ast.Name) and r.func.id == d.name]
+                if not recs or any(r.keywords or len(r.args) != len(ps) or any(not (isinstance(a, ast.Name) and a.id == p) for a, p in zip(r.args[1:], ps[1:])) for r in recs):
+                    continue
+                if not any(isinstance(a, (ast.Name, ast.Lambda)) and not isinstance(a, ast.Constant) for a in c.args[1:]):
+                    continue
+                # at least one of the invariant parameters is called in the walker (a function parameter)
+                called = {r.func.id for r in ast.walk(d) if isinstance(r, ast.Call) and isinstance(r.func, ast.Name)}
+                if not (called & set(ps[1:])):
+                    continue
+                stored = {n.id for n in ast.walk(d) if isinstance(n, ast.Name) and isinstance(n.ctx, (ast.Store, ast.Del))}
+                if stored & set(ps):
+                    continue
+                if any(isinstance(n, (ast.Yield, ast.YieldFrom, ast.Global, ast.Nonlocal)) for n in ast.walk(d)):
+                    continue
+                if not all(isinstance(a, (ast.Name, ast.Constant, ast.Lambda)) for a in c.args[1:]):
+                    continue
+                cands.append((c, d, ps))
+            if len(cands) != 1:
+                continue
+            call, d, ps = cands[0]
+            def own_names(f_):
+                out_ = set()
+                todo_ = list(f_.body)
+                while todo_:
+                    n_ = todo_.pop()
+                    if isinstance(n_, (ast.FunctionDef, ast.Lambda, ast.ClassDef)):
+                        if hasattr(n_, 'name'):
+                            out_.add(n_.name)
+                        continue        # the names inside a nested definition are its own
+                    if isinstance(n_, ast.Name):
+                        out_.add(n_.id)
+                    todo_.extend(ast.iter_child_nodes(n_))
+                return out_
+            used = own_names(fn) | {a.arg for a in fn.args.args}
+            rec_name = 'rec' if 'rec' not in used else '%s__rec' % d.name.strip('_')
+            # locals of the walker that collide with names of the host get a prefix
+            locals_ = {n.id for n in ast.walk(d) if isinstance(n, ast.Name) and isinstance(n.ctx, ast.Store)}
+            ren = {v: _name('%s__%s' % (d.name.strip('_'), v)) for v in locals_ if v in used}
+            for p, a in zip(ps[1:], call.args[1:]):
+                ren[p] = a
+            p0 = ps[0] if ps[0] not in used else '%s__%s' % (d.name.strip('_'), ps[0])
+            ren[ps[0]] = _name(p0)
+            new_body = []
+            for st_ in d.body:
+                if _is_doc(st_):
+                    continue
+                c_ = _clone(st_)
+                for r in [r for r in ast.walk(c_) if isinstance(r, ast.Call) and isinstance(r.func, ast.Name) and r.func.id == d.name]:
+                    r.func = _name(rec_name)
+                    r.args = [r.args[0]]
+                new_body.append(_Subst(names=ren, stores=True).visit(c_))
+            rec_def = ast.FunctionDef(name=rec_name, args=ast.arguments(posonlyargs=[], args=[ast.arg(arg=p0)], kwonlyargs=[], kw_defaults=[], defaults=[]),
+                                      body=new_body, decorator_list=[], returns=None, type_comment=None)
+            if hasattr(ast, 'TypeVar'):
+                rec_def.type_params = []
+            call.func = _name(rec_name)
+            call.args = [call.args[0]]
+            body.insert(body.index(s), rec_def)
+            for n in ast.walk(rec_def):
+                if isinstance(n, (ast.stmt, ast.expr)) and not hasattr(n, 'lineno'):
+                    n.lineno = n.end_lineno = s.lineno
+                    n.col_offset = n.end_col_offset = 0
+            ast.fix_missing_locations(fn)
+            done.append('%s:%s' % (fn.name, d.name))
+    return done
